@@ -71,6 +71,9 @@ type Sub struct {
 	SubscribeErr error
 	// OnSubscribe runs inside Subscribe, before it returns.
 	OnSubscribe func(topic string)
+	// IgnoreCtx makes subscriptions ignore their context: they end only on Close() (like a broker client
+	// that does not watch the context).
+	IgnoreCtx bool
 }
 
 // String makes the Router's subscriber name deterministic.
@@ -92,6 +95,8 @@ type Subscription struct {
 	done     chan struct{}
 	doneOnce sync.Once
 	exited   chan struct{}
+
+	ignoreCtx bool
 }
 
 func (s *Sub) Subscribe(ctx context.Context, topic string) (<-chan *message.Message, error) {
@@ -104,7 +109,7 @@ func (s *Sub) Subscribe(ctx context.Context, topic string) (<-chan *message.Mess
 	if s.SubscribeErr != nil {
 		return nil, s.SubscribeErr
 	}
-	sp := &Subscription{Topic: topic, Ctx: ctx, out: make(chan *message.Message), in: make(chan *item), done: make(chan struct{}), exited: make(chan struct{})}
+	sp := &Subscription{Topic: topic, Ctx: ctx, ignoreCtx: s.IgnoreCtx, out: make(chan *message.Message), in: make(chan *item), done: make(chan struct{}), exited: make(chan struct{})}
 	if s.closed {
 		sp.stop()
 	}
@@ -119,11 +124,15 @@ func (sp *Subscription) stop() { sp.doneOnce.Do(func() { close(sp.done) }) }
 func (sp *Subscription) pump() {
 	defer close(sp.exited)
 	defer close(sp.out)
+	ctxDone := sp.Ctx.Done()
+	if sp.ignoreCtx {
+		ctxDone = nil
+	}
 	for {
 		select {
 		case <-sp.done:
 			return
-		case <-sp.Ctx.Done():
+		case <-ctxDone:
 			sp.stop()
 			return
 		case it := <-sp.in:
@@ -133,7 +142,7 @@ func (sp *Subscription) pump() {
 			case <-sp.done:
 				close(it.dropped)
 				return
-			case <-sp.Ctx.Done():
+			case <-ctxDone:
 				close(it.dropped)
 				sp.stop()
 				return
